@@ -17,6 +17,7 @@ import (
 	"path/filepath"
 	"strings"
 
+	"github.com/rqlite/rqlite/v10/db"
 	"github.com/rqlite/rqlite/v10/snapshot/plan"
 )
 
@@ -46,10 +47,18 @@ func vTree(dir string) string {
 	return out
 }
 
-func VerifC07Ops() {
-	verifPanicsAreViolations()
-	root := vNewRoot("r")
-	defer vDropRoot(root)
+// vOpsWorld is the small directory in which one plan operation has work to do.
+type vOpsWorld struct {
+	root, dir, a, b, dbPath, w0, w1 string
+	wantBoth, wantAsIs            string
+	kind                          int
+	p                             *plan.Plan
+}
+
+func vOpsSetup() *vOpsWorld {
+	w := &vOpsWorld{}
+	w.root = vNewRoot("r")
+	root := w.root
 	dir := filepath.Join(root, "s")
 	a, b := filepath.Join(dir, "a"), filepath.Join(dir, "b")
 	vMust(os.MkdirAll(a, 0o755))
@@ -108,6 +117,120 @@ func VerifC07Ops() {
 	case 8:
 		p.AddVerifyDB(dbPath)
 	}
+	w.dir, w.a, w.b, w.dbPath, w.w0, w.w1 = dir, a, b, dbPath, w0, w1
+	w.wantBoth, w.wantAsIs, w.kind, w.p = wantBoth, wantAsIs, kind, p
+	return w
+}
+
+// effect checks the effect of the operation, from its documentation.
+func (w *vOpsWorld) effect(pfx string) {
+	dir, a, b, dbPath := w.dir, w.a, w.b, w.dbPath
+	switch w.kind {
+	case 0:
+		verifAssert(pfx+"-rename", !vExists(a) && vExists(filepath.Join(b, "f")))
+	case 1:
+		verifAssert(pfx+"-remove", !vExists(filepath.Join(a, "f")) && vExists(a))
+	case 2:
+		verifAssert(pfx+"-removeall", !vExists(a))
+	case 3:
+		got, cerr := vContent(dbPath, nil)
+		verifAssert(pfx+"-checkpoint-consumes-wals", cerr == nil && !vExists(w.w0) && !vExists(w.w1) && !vExists(dbPath+"-wal"))
+		verifAssert(pfx+"-checkpoint-content", got == w.wantBoth)
+	case 4:
+		data, rerr := os.ReadFile(filepath.Join(a, metaFileName))
+		verifAssert(pfx+"-writemeta", rerr == nil && string(data) == "new meta")
+	case 5:
+		verifAssert(pfx+"-mkdirall", vIsDir(filepath.Join(b, "c")))
+	case 6:
+		data, rerr := os.ReadFile(filepath.Join(dir, "g"))
+		verifAssert(pfx+"-copyfile", rerr == nil && string(data) == "content" && vExists(filepath.Join(a, "f")))
+	case 7:
+		hf, herr := NewChecksummedFileFromFiles(dbPath, dbPath+crcSuffix)
+		ok := false
+		if herr == nil {
+			ok, herr = hf.Check()
+		}
+		verifAssert(pfx+"-calccrc32", herr == nil && ok)
+	case 8:
+		got, cerr := vContent(dbPath, nil)
+		verifAssert(pfx+"-verifydb-changes-nothing", cerr == nil && got == w.wantAsIs)
+	}
+}
+
+// vTreeLogical is vTree with every SQLite database file represented by the database content it
+// holds instead of its bytes (two ways of applying the same WALs need not give the same bytes).
+func vTreeLogical(dir string) string {
+	out := ""
+	ents, err := os.ReadDir(dir)
+	if err != nil {
+		return "<unreadable>"
+	}
+	for _, e := range ents {
+		p := filepath.Join(dir, e.Name())
+		if e.IsDir() {
+			out += e.Name() + "/{" + vTreeLogical(p) + "}"
+			continue
+		}
+		if strings.HasSuffix(e.Name(), "-shm") {
+			continue
+		}
+		if db.IsValidSQLiteFile(p) {
+			c, err := vContent(p, nil)
+			if err != nil {
+				c = "<unreadable database>"
+			}
+			out += e.Name() + "~" + c + ";"
+			continue
+		}
+		b, err := os.ReadFile(p)
+		if err != nil {
+			return "<unreadable>"
+		}
+		out += e.Name() + "=" + string(b) + ";"
+	}
+	return out
+}
+
+// vSaveTree / vRestoreTree: everything below dir, kept in memory and put back.
+type vSavedEntry struct {
+	path string
+	dir  bool
+	data []byte
+}
+
+func vSaveTree(dir string, acc []vSavedEntry) []vSavedEntry {
+	acc = append(acc, vSavedEntry{path: dir, dir: true})
+	ents, err := os.ReadDir(dir)
+	vMust(err)
+	for _, e := range ents {
+		p := filepath.Join(dir, e.Name())
+		if e.IsDir() {
+			acc = vSaveTree(p, acc)
+			continue
+		}
+		b, err := os.ReadFile(p)
+		vMust(err)
+		acc = append(acc, vSavedEntry{path: p, data: b})
+	}
+	return acc
+}
+
+func vRestoreTree(dir string, saved []vSavedEntry) {
+	vMust(os.RemoveAll(dir))
+	for _, e := range saved {
+		if e.dir {
+			vMust(os.MkdirAll(e.path, 0o755))
+		} else {
+			vMust(os.WriteFile(e.path, e.data, 0o644))
+		}
+	}
+}
+
+func VerifC07Ops() {
+	verifPanicsAreViolations()
+	w := vOpsSetup()
+	defer vDropRoot(w.root)
+	dir, p, kind := w.dir, w.p, w.kind
 
 	ck := plan.NewChecker()
 	done, err := p.LastOpDone(ck)
@@ -119,36 +242,7 @@ func VerifC07Ops() {
 	after := vTree(dir)
 
 	// the effect, from the documentation of the operation
-	switch kind {
-	case 0:
-		verifAssert("C07-ops-rename", !vExists(a) && vExists(filepath.Join(b, "f")))
-	case 1:
-		verifAssert("C07-ops-remove", !vExists(filepath.Join(a, "f")) && vExists(a))
-	case 2:
-		verifAssert("C07-ops-removeall", !vExists(a))
-	case 3:
-		got, cerr := vContent(dbPath, nil)
-		verifAssert("C07-ops-checkpoint-consumes-wals", cerr == nil && !vExists(w0) && !vExists(w1) && !vExists(dbPath+"-wal"))
-		verifAssert("C07-ops-checkpoint-content", got == wantBoth)
-	case 4:
-		data, rerr := os.ReadFile(filepath.Join(a, metaFileName))
-		verifAssert("C07-ops-writemeta", rerr == nil && string(data) == "new meta")
-	case 5:
-		verifAssert("C07-ops-mkdirall", vIsDir(filepath.Join(b, "c")))
-	case 6:
-		data, rerr := os.ReadFile(filepath.Join(dir, "g"))
-		verifAssert("C07-ops-copyfile", rerr == nil && string(data) == "content" && vExists(filepath.Join(a, "f")))
-	case 7:
-		hf, herr := NewChecksummedFileFromFiles(dbPath, dbPath+crcSuffix)
-		ok := false
-		if herr == nil {
-			ok, herr = hf.Check()
-		}
-		verifAssert("C07-ops-calccrc32", herr == nil && ok)
-	case 8:
-		got, cerr := vContent(dbPath, nil)
-		verifAssert("C07-ops-verifydb-changes-nothing", cerr == nil && got == wantAsIs)
-	}
+	w.effect("C07-ops")
 
 	// idempotent
 	verifAssert("C07-ops-second-execution-succeeds", p.Execute(plan.NewExecutor()) == nil)
@@ -163,9 +257,9 @@ func VerifC07Ops() {
 	case 0:
 		verifAssert("C07-ops-rename-of-nothing-fails", ex.Rename(nowhere, nowhere2) != nil)
 	case 3:
-		vMust(os.WriteFile(w0, vWALContent(0), 0o644))
-		_, cerr := ex.Checkpoint(filepath.Join(dir, "no.db"), []string{w0})
-		verifAssert("C07-ops-checkpoint-without-database-fails", cerr != nil && vExists(w0))
+		vMust(os.WriteFile(w.w0, vWALContent(0), 0o644))
+		_, cerr := ex.Checkpoint(filepath.Join(dir, "no.db"), []string{w.w0})
+		verifAssert("C07-ops-checkpoint-without-database-fails", cerr != nil && vExists(w.w0))
 	case 6:
 		verifAssert("C07-ops-copy-of-nothing-fails", ex.CopyFile(nowhere, nowhere2) != nil)
 	}
@@ -176,4 +270,54 @@ func VerifC07Ops() {
 	done, err = empty.LastOpDone(ck)
 	verifAssert("C07-ops-empty-plan-is-done", err == nil && done && empty.Execute(ex) == nil)
 	verifReach("ops-checked")
+}
+
+// VerifC07OpsCrash: the same operations when the process dies in the middle of one - at every crash
+// point of its execution, in particular INSIDE the operations that are not atomic (a directory
+// removal with any subset of the entries gone, a metadata / checksum write or a file copy cut to a
+// prefix, a checkpoint between its WALs and inside db.CheckpointRemove). "If the process is
+// interrupted during execution, the plan can be re-read and re-executed on restart, since all
+// operations are idempotent" (Store.Reap): executing the operation again succeeds and leaves
+// exactly the state an uninterrupted execution leaves.
+func VerifC07OpsCrash() {
+	verifPanicsAreViolations()
+	w := vOpsSetup()
+	defer vDropRoot(w.root)
+	p := w.p
+	run := func() { p.Execute(plan.NewExecutor()) }
+
+	// what an uninterrupted execution leaves
+	saved := vSaveTree(w.dir, nil)
+	run()
+	want := vTreeLogical(w.dir)
+	vRestoreTree(w.dir, saved)
+
+	n := vCountPoints(run)
+	verifAssume(n > 0) // VerifyDB mutates nothing
+	at := 1 + verifChoice("crashAt", n)
+	verifAssume(vRunCrash(at, run))
+	if vCr.inside {
+		switch vCr.op {
+		case vOpRemoveAll:
+			verifReach("ops-crash-inside-removeall")
+		case vOpWriteFile:
+			verifReach("ops-crash-inside-writemeta")
+		case vOpIoCopy:
+			verifReach("ops-crash-inside-copy")
+		case vOpSidecar:
+			verifReach("ops-crash-inside-checksum-write")
+		case vOpCkptInside:
+			verifReach("ops-crash-inside-checkpoint")
+		}
+	}
+
+	verifAssert("C07-ops-execution-after-crash-succeeds", p.Execute(plan.NewExecutor()) == nil)
+	w.effect("C07-ops-after-crash")
+	done, err := p.LastOpDone(plan.NewChecker())
+	verifAssert("C07-ops-after-crash-done", err == nil && done == (w.kind != 8))
+	verifAssert("C07-ops-after-crash-same-state-as-uninterrupted", vTreeLogical(w.dir) == want)
+	after := vTree(w.dir)
+	verifAssert("C07-ops-after-crash-further-execution-succeeds", p.Execute(plan.NewExecutor()) == nil)
+	verifAssert("C07-ops-after-crash-further-execution-changes-nothing", vTree(w.dir) == after)
+	verifReach("ops-crash-checked")
 }
